@@ -119,7 +119,7 @@ func TestMain(m *testing.M) {
 }
 
 var rfcBehaviours = []tsa.Behaviour{tsa.Valid, tsa.Valid, tsa.Valid, tsa.GrantedWithMods, tsa.WrongNonce, tsa.OmitNonce, tsa.WrongImprint, tsa.WrongImprintAlg,
-	tsa.StatusRejection, tsa.StatusWaiting, tsa.GrantedNoToken, tsa.BadTokenSignature, tsa.HTTP500, tsa.Garbage, tsa.Truncated, tsa.WrongContentType}
+	tsa.StatusRejection, tsa.RejectionWithToken, tsa.StatusWaiting, tsa.GrantedNoToken, tsa.BadTokenSignature, tsa.HTTP500, tsa.Garbage, tsa.Truncated, tsa.WrongContentType}
 var msBehaviours = []tsa.Behaviour{tsa.MSValid, tsa.MSValid, tsa.MSWrongContent, tsa.MSBadSignature, tsa.MSGarbage, tsa.MSHTTP500}
 
 // acceptable per the property statement: granted, nonce echoed, imprint equal, token correctly signed
@@ -591,6 +591,33 @@ func TestC10_ValidityWindow(t *testing.T) {
 			desc["error"] = verr.Error()
 			evid.SaveCase("TestC10_ValidityWindow", desc)
 			t.Fatalf("signature should be valid (attested time inside the certificate's lifetime) but verification fails: %v\n %v", verr, desc)
+		}
+		if want && !noTS && !impostor && rapid.IntRange(0, 2).Draw(t, "then_outside") == 0 {
+			// history: the same certificate was just accepted at an attested time inside its
+			// lifetime; a second signature timestamped after the certificate expired (or, with
+			// an expired certificate, not timestamped at all) must be judged on its own
+			late := na.Add(time.Duration(rapid.Int64Range(2, 86400*30).Draw(t, "late_offset")) * time.Second)
+			flags2 := map[string]string{}
+			expectFail := true
+			if rapid.Bool().Draw(t, "second_without_timestamp") {
+				flags2["no-timestamp"] = "true"
+				expectFail = now.Before(nb) || now.After(na)
+			} else {
+				for _, au := range auths {
+					au.set(tsa.Valid, late)
+				}
+			}
+			p2 := filepath.Join(dir, "second-"+a.Name)
+			os.WriteFile(p2, a.Data, 0o644)
+			if err := env.SignLib(&pipe.Req{SigType: a.SigType, In: p2, Key: "window", Hash: crypto.SHA256, Flags: flags2}); err == nil {
+				_, verr2 := env.Verify(&pipe.VerifyReq{Path: p2})
+				rec.Case(fmt.Sprintf("win2|%s|%s|%v|%v|%v|%v", format, key, nb, na, late, flags2), "window/history-valid-then-outside", true)
+				if expectFail && verr2 == nil {
+					desc["second_signature"] = map[string]any{"attested": late, "flags": flags2}
+					evid.SaveCase("TestC10_ValidityWindow", desc)
+					t.Fatalf("after one signature by this certificate verified at an in-lifetime time, a second one outside the lifetime (attested %v, flags %v) verifies too\n %v", late, flags2, desc)
+				}
+			}
 		}
 		if !want && verr == nil {
 			evid.SaveCase("TestC10_ValidityWindow", desc)
